@@ -639,7 +639,9 @@ func init() {
 						// sent again - and must not be compressed again; then it is read back
 						big := bytes.Repeat([]byte{byte('a' + r.intn(3))}, 4000+r.intn(60000))
 						items = append(items, fmt.Sprintf("mb %d %d", sl, r.intn(n)), "mk "+hex.EncodeToString(k),
-							"q "+bulkArr([]byte("set"), k, big).String(), "q "+bulkArr([]byte("get"), k).String())
+							"q "+bulkArr([]byte("set"), k, big).String(), "q "+bulkArr([]byte("get"), k).String(),
+							// ... and read back without a redirection, once the migration is over and the table is current
+							fmt.Sprintf("mf %d", sl), "q "+bulkArr([]byte("get"), k).String(), "w", "q "+bulkArr([]byte("get"), k).String())
 						continue
 					}
 					items = append(items, fmt.Sprintf("mb %d %d", sl, r.intn(n)))
